@@ -130,6 +130,8 @@ fn outline_waitpid_any() -> (r: WaitOutcome) { unimplemented!() }
 
 #[verifier::external_body]
 fn outline_is_quiet(signal: &Signal) -> (r: bool) { unimplemented!() }
+#[verifier::external_body]
+fn outline_is_transparent(signal: &Signal) -> (r: bool) { unimplemented!() }
 
 impl Tracer {
     /// `self.inject_signal_queue.iter().map(|(pid, _)| *pid).collect()`
@@ -174,7 +176,8 @@ impl Tracer {
 //@   rewrite W_pid: `Pid::from_raw(-1)` => `Pid(-1)`
 //@   outline O_multi: `self.tracee_ctl.cont_stopped().map_err(MultipleErrors)?` => `self.tracee_ctl.cont_stopped()?`
 //@   rewrite W_wait: `match waitpid(Pid(-1), None) { Ok(status) => status, Err(Errno::ECHILD) => { return Ok(StopReason::NoSuchProcess(self.tracee_ctl.proc_pid())); } Err(e) => return Err(Waitpid(e)), }` => `match outline_waitpid_any() { WaitOutcome::Status(status) => status, WaitOutcome::NoChild => { return Ok(StopReason::NoSuchProcess(self.tracee_ctl.proc_pid())); } WaitOutcome::Failed => return Err(DbgError), }`
-//@   outline O_quiet: `QUIET_SIGNALS.contains(&signal)` => `outline_is_quiet(&signal)`
+//@   outline O_quiet: `QUIET_SIGNALS.contains(&$s)` => `outline_is_quiet(&$s)`
+//@   outline O_transp: `TRANSPARENT_SIGNALS.contains(&$s)` => `outline_is_transparent(&$s)`
 //@   proof before `if let Some(req) = self.inject_signal_queue.pop_front()`: let ghost q_pre = self.inject_signal_queue@; let ghost d_pre = self.tracee_ctl.delivered@; assert(q_pre.len() > 0 ==> (!queued(q_pre.subrange(1, q_pre.len() as int), q_pre[0].0) && distinct_pids(q_pre.subrange(1, q_pre.len() as int)) && d_pre.push(q_pre[0]) + q_pre.subrange(1, q_pre.len() as int) =~= d_pre + q_pre)) by { if q_pre.len() > 0 { lemma_distinct_head(q_pre); lemma_pop_keeps_ledger(d_pre, q_pre); } }
 //@   proof before `if let Some(stop) = self.apply_new_status(tcx, status)?`: let ghost q_mid = self.inject_signal_queue@; let ghost d_mid = self.tracee_ctl.delivered@;
 //@   proof after `if let Some(stop) = self.apply_new_status(tcx, status)? {`: assert(prefix_of(ledger(old(self)), ledger(self)) && distinct_pids(self.inject_signal_queue@)) by { if self.inject_signal_queue@ != q_mid { let x = choose|x: (Pid, Signal)| #[trigger] q_mid.push(x) == self.inject_signal_queue@ && !queued(q_mid, x.0); lemma_push_prefix(ledger(old(self)), d_mid, q_mid, x); lemma_push_distinct(q_mid, x); } }
